@@ -31,8 +31,39 @@ for d in sorted(glob.glob(os.path.join(ROOT, "seeded", "C??-?"))):
     n = int(m["id"].split("-")[1]); rnd = "3" if n >= 5 else ("2" if n >= 3 else "1")
     rows.append(f"| {m['id']} | {rnd} | {', '.join(os.path.basename(f) for f in m['files_touched'])} | {m['title'].split('—', 1)[-1].strip()} | {m['checks_run']['first_round']} | {'; '.join(finals)} |")
 stable = "| id | round | file | change | when first run | final run |\n|---|---|---|---|---|---|\n" + "\n".join(rows)
+STATUS = {
+ "C01": ("full (ledger and pipeline)", "`C01_refines_spec`, `C01_row`, `C01_registered`, `C01_affiliates_independent`, `C01_pipeline`"),
+ "C02": ("full", "`C02_superficial_iff`, `C02_ratio`, `C02_automatic`, `C02_specified`, `C02_rule`, `C02_comparisons_match_source`, window/tolerance constants"),
+ "C03": ("full (the property itself carries the \"not flagged over-applied\" condition)", "`C03_conservation`, `C03_adjustments_sum`, `C03_never_registered`"),
+ "C04": ("full (ledger, pipeline, totals); output modes by oracle", "`C04_nonneg`, `C04_total`, `C04_registered`, `C04_only_user_errors`, `C04_row_rejected_iff`, `C04_sfl_error_iff`, `C04_pipeline`, `C04_rejected_not_in_totals`"),
+ "C05": ("core full (ledger and pipeline); front ends sampled", "`C05_core_no_panic`, `C04_pipeline`"),
+ "C06": ("full (render model)", "`C06_year_total`, `C06_table_total`, `C06_aggregate_year`, `C06_since_inception`, `C06_round_spec`, `C06_display_only`"),
+ "C07": ("full", "`C07_row_perm`, `C07_column_perm`, `C07_file_partition`, `C07_header_case_pad`, `C07_unknown_columns`, `C07_sort_unique`, …"),
+ "C08": ("full (pipeline + gains model)", "`C08_table_local`, `C08_other_rows_irrelevant`, `C08_error_local`, `C08_aggregate_additive`"),
+ "C09": ("full for the modelled hash walks; rest sampled across processes", "`C09_deterministic`, `C09_summary_deterministic`, `C09_split_expansion`, `C09_cost_tables`, `C09_gains_tables`"),
+ "C10": ("**partial**", "`C10_later_rows_partial`, `C10_later_rows_loss_only_partial`, `C10_no_conflict_is_far`, `C10_simple_rebuilds`, `C10_annual_sell`, `C10_annual_rebuilds`, `C10_summary_date_inclusive`"),
+ "C11": ("full on the canonical domain", "`C11_roundtrip`, `C11_idempotent_bytes`, cell theorems, two `_counterexample`s"),
+ "C12": ("full", "`C12_effective_eq_spec`, `C12_error_iff_none_exists`, `C12_never_later_at_most_7_days`, currency rules"),
+ "C13": ("full", "`C13_transparent`, `C13_cache_stays_trustworthy`, download-count theorems"),
+ "C14": ("full for the crash model (process kill observed; power loss model only)", "`C14_crash_safe`, `C14_cache_file_old_or_new_after_kill`, `…_after_power_loss`, `C14_cachefile_roundtrip`"),
+ "C15": ("full (ledger model and per-security pipeline)", "`C15_neutral`, `C15_pipeline`, `C15_gains_and_sfl`, `C15_row_figures`, `C15_global_eq_per_affiliate`"),
+ "C16": ("full (ledger and per-security pipeline)", "`C16_equiv`, `C16_pipeline`, `C16_other_securities`, `C16_parsed_first`"),
+ "C17": ("full", "`C17_day_figures`, `C17_yearly_is_max`, `C17_row_total`, `C17_no_panic`, …"),
+ "C18": ("full (sheet conversion model)", "`C18_one_row_per_trade`, `C18_cash_conservation`, `C18_layout_independent`, `C18_accepted_by_acb`, …"),
+ "C19": ("full (matching model)", "`C19_partition`, `C19_unmatched_is_error`, `C19_found_set_is_a_match`, `C19_sorted`, …"),
+ "C20": ("pages full; table extraction **partial**", "`C20_visit_all_pages`, `C20_chunks_cover`, `C20_statement_partial`, `C20_numeric_tail_counterexample`"),
+}
+srows = []
+for pid in sorted(STATUS):
+    cfg = json.load(open(os.path.join(ROOT, "tools", "propcfg", pid + ".json")))
+    fams = ", ".join("`" + f["name"] + "`" for f in cfg["families"])
+    fx = [e["id"] for e in k if e["property"] == pid and e["status"] == "fixed"]
+    op = [e["id"] for e in k if e["property"] == pid and e["status"] == "open"]
+    fnd = "; ".join(x for x in [(", ".join(fx) + " fixed") if fx else "", (", ".join(op) + " open") if op else ""] if x) or "—"
+    srows.append(f"| {pid} | {STATUS[pid][0]} | {STATUS[pid][1]} | {fams} | {fnd} |")
+status = "| id | proof | main theorems (`lean/AcbModel/Props/`) | tie to the code: harness families | findings |\n|---|---|---|---|---|\n" + "\n".join(srows)
 s = open(os.path.join(ROOT, "DESIGN.md")).read()
-for name, body in (("FTABLE", ftable), ("STABLE", stable)):
+for name, body in (("FTABLE", ftable), ("STABLE", stable), ("STATUS", status)):
     pat = re.compile(r"(<!-- BEGIN " + name + r" -->\n).*?(<!-- END " + name + r" -->)", re.S)
     assert pat.search(s), name
     s = pat.sub(lambda m: m.group(1) + body + "\n" + m.group(2), s)
